@@ -130,3 +130,42 @@ SPECS["C18"] = dict(
     level_note="Trusted: Kani/CBMC memory model. Length bounded; a memory-safety counterexample is reported even when the native replay does not crash (undefined behaviour need not crash).",
     technique="Kani/CBMC bounded model checking with pointer/allocation checks",
 )
+
+
+# --------------------------------------------------------------------------------------- C13
+_c13 = [
+    H("c13_smh_f64_m1", 600, "thorough", "SuperMinHash<f64>::reinit from arbitrary content == new(1), every field", "m=1"),
+    H("c13_smh_f64_m2", 600, "quick", "SuperMinHash<f64>::reinit from arbitrary content == new(m), every field", "m=2"),
+    H("c13_smh_f64_m3", 600, "quick", "same", "m=3"),
+    H("c13_smh_f64_m5", 600, "thorough", "same", "m=5"),
+    H("c13_smh_f32_m3", 600, "thorough", "SuperMinHash<f32>::reinit", "m=3"),
+    H("c13_smh2_m1", 600, "thorough", "SuperMinHash2<u64>::reinit from arbitrary content == new(1)", "m=1"),
+    H("c13_smh2_m2", 600, "quick", "SuperMinHash2<u64>::reinit from arbitrary content == new(m) (shuffle: fresh representation)", "m=2"),
+    H("c13_smh2_m3", 600, "quick", "same", "m=3"),
+    H("c13_smh2_m5", 600, "thorough", "same", "m=5"),
+    H("c13_ss_reinit_m2", 600, "thorough", "SetSketcher<u16>::reinit from arbitrary registers/lower bound/counters/shuffle == fresh state, parameters untouched", "m=2, any (b,a,q)"),
+    H("c13_ss_reinit_m3", 600, "quick", "same", "m=3"),
+    H("c13_ss_reinit_m5", 600, "thorough", "same", "m=5"),
+    H("c13_ss_new_m3", 600, "quick", "SetSketcher::new gives the documented fresh state (ln_1p stubbed)", "m=3", stubs=["f64::ln_1p -> arbitrary finite value"]),
+    H("c13_optdens_m1", 600, "thorough", "OptDensMinHash::reinit == new", "m=1"),
+    H("c13_optdens_m3", 600, "quick", "OptDensMinHash::reinit from arbitrary content == new(m)", "m=3"),
+    H("c13_optdens_m5", 600, "thorough", "same", "m=5"),
+    H("c13_revdens_m1", 600, "thorough", "RevOptDensMinHash::reinit == new", "m=1"),
+    H("c13_revdens_m3", 600, "quick", "RevOptDensMinHash::reinit from arbitrary content == new(m)", "m=3"),
+    H("c13_revdens_m5", 600, "thorough", "same", "m=5"),
+    H("c13_pmh2_m2", 600, "quick", "ProbMinHash2::reset from arbitrary signature/tracker/shuffle == new(m, initobj)", "m=2"),
+    H("c13_pmh2_m3", 600, "quick", "same", "m=3"),
+    H("c13_pmh2_m5", 900, "thorough", "same", "m=5"),
+]
+SPECS["C13"] = dict(
+    level="model_checking", harnesses=_c13,
+    functions=["SuperMinHash::{new, reinit}", "SuperMinHash2::{new, reinit}", "SetSketcher::{new, reinit}", "OptDensMinHash::{new, reinit}", "RevOptDensMinHash::{new, reinit}", "ProbMinHash2::{new, reset}", "MaxValueTracker::reset", "FYshuffle::reset"],
+    bounds={"quick": "sketch sizes m in {2,3}", "thorough": "m in {1,2,3,5}"},
+    outside="other sizes (the reset code is size-uniform loops / fills); ProbOrdMinHash2's self-clearing hash_set is covered under C11's differential harness, not here",
+    assumptions=["pre-state: every field that any operation can modify holds an arbitrary value (no invariant assumed), vector lengths fixed to m; fields that no operation modifies (parameters, betas) are as built by new",
+                 "equal full state + deterministic code (C12) => identical subsequent behaviour; the shuffle's two fresh representations (lastidx 0 / m) draw identically (C17 c17_reset_*)"],
+    not_decided=[],
+    level_text="Bounded model checking: from a sketcher whose every mutable field holds an arbitrary value, reinit/reset yields a state that is field-by-field the state built by new (exhaustive struct patterns make a newly added field a compile error rather than a silent omission).",
+    level_note="Trusted: Kani/CBMC. Sizes bounded as listed; ln_1p stubbed in the constructor harness of SetSketcher.",
+    technique="Kani/CBMC bounded model checking, full-state comparison after reset from a symbolic garbage state",
+)
